@@ -23,7 +23,7 @@ def _c16_small(args):
     tx, ty = T(row['x']), T(row['y'])
     cxs, cys = all_pairs(tx, ty)
     out = [x_misc.observe_cmp(fx, np, [pid], tx, cxs, ty=ty, cys=cys),
-           x_misc.observe_cmp(fx, np, [pid], tx, cxs, ty=ty, cys=cys, hist=['inplace', 'view', 'elementwise', 'resign'][idx % 4])]
+           x_misc.observe_cmp(fx, np, [pid], tx, cxs, ty=ty, cys=cys, hist=['inplace', 'view', 'elementwise', 'resign', 'intfmt'][idx % 5])]
     lo, hi = rng_of(tx)
     xs = list(range(lo, hi + 1))
     # against plain numbers on both sides: the other operand's values as numbers, plus values between grid points
@@ -33,7 +33,7 @@ def _c16_small(args):
     px = [x for x in xs for _ in nums]
     pn = [n for _ in xs for n in nums]
     out.append(x_misc.observe_cmp(fx, np, [pid], tx, px, nums=pn, side='right'))
-    out.append(x_misc.observe_cmp(fx, np, [pid], tx, px, nums=pn, side='right', hist=['view', 'inplace', 'elementwise'][idx % 3]))
+    out.append(x_misc.observe_cmp(fx, np, [pid], tx, px, nums=pn, side='right', hist=['view', 'inplace', 'elementwise', 'intfmt'][idx % 4]))
     # plain numbers carried by narrow NumPy dtypes (only values exactly representable in the dtype)
     for numtype in ('int8', 'uint8', 'int16', 'float16', 'float32', 'int64'):
         ok = [(x, n_) for x, n_ in zip(px, pn) if _fits(np, n_, numtype)]
@@ -49,7 +49,7 @@ def _c16_small(args):
     if tx == ty or idx % 7 == 0:
         out.append(x_misc.observe_numconv(fx, np, [pid], tx, xs))
         out.append(x_misc.observe_numconv(fx, np, [pid], tx, xs, byvalue=True))
-        out.append(x_misc.observe_numconv(fx, np, [pid], tx, xs, hist=['inplace', 'view', 'elementwise'][idx % 3]))
+        out.append(x_misc.observe_numconv(fx, np, [pid], tx, xs, hist=['inplace', 'view', 'elementwise', 'intfmt'][idx % 4]))
     return _tag(out)
 
 
@@ -80,7 +80,7 @@ def _c16_wide(args):
         ints = [F(rng.randint(-128, 127)) for _ in cxs]
         out.append(x_misc.observe_cmp(fx, np, [pid], tx, cxs, nums=ints, side='right', numtype=rng.choice(['int8', 'int16', 'float16'])))
         out.append(x_misc.observe_cmp(fx, np, [pid], tx, [cxs[0]], nums=[ints[0]], side='right', scalar=True, numtype=rng.choice(['int8', 'int16', 'float16'])))
-        out.append(x_misc.observe_cmp(fx, np, [pid], tx, cxs, ty=ty, cys=cys, hist=rng.choice(['inplace', 'view', 'elementwise', 'resign'])))
+        out.append(x_misc.observe_cmp(fx, np, [pid], tx, cxs, ty=ty, cys=cys, hist=rng.choice(['inplace', 'view', 'elementwise', 'resign', 'intfmt'])))
         out.append(x_misc.observe_cmp(fx, np, [pid], tx, cxs, nums=[nums[0]] * len(cxs), side='left'))
         t8 = _rand_fmt(rng, 8)
         l8, h8 = rng_of(t8)
